@@ -3,13 +3,86 @@
 TECH = "deterministic simulation with fault injection: "
 
 ENGINES = [
+    {"name": "rfsim", "path": "vsim/engines/rfsim.py",
+     "serves_properties": ["C01", "C04", "C05", "C06", "C07", "C08", "C11", "C19"],
+     "kind_free_text": "call-granularity session simulator: writer sessions as forked nodes parked at every API-call "
+                       "boundary, readers/inspection/regeneration in the simulator under a seeded readdir permutation"},
     {"name": "crashsim", "path": "vsim/engines/crashsim.py", "serves_properties": ["C02", "C09", "C10"],
      "kind_free_text": "recorder process single-stepped at every libc file-system call (LD_PRELOAD shim, lock-step "
                        "over a socketpair); simulator decides GO / FAIL(errno) / TORN / KILL per op and runs readers on "
                        "the live tree in the gaps; virtual wall clock"},
 ]
 
+_RFNOTE = ("decided by seeded sampling of configuration x boundary index x history against an exact big-integer "
+           "model; the simulator contributes session restarts, reader-object histories, readdir order and process "
+           "isolation, not faults. HDF5 1.10.8 build of the tree; model and keyed-hash value streams are trusted.")
+
 CHECKS = {
+    "C01": {
+        "engine": "rfsim", "level": "exploration", "design_ref": "DESIGN.md 5/C01",
+        "technique": TECH + "fault-free configuration of the storage simulation: seeded write/read histories against an exact reference model, shuffled readdir, old and fresh readers",
+        "text": "Every seeded history writes through the real C library (forked node) and reads every generated range "
+                "back through old and fresh reader objects; returned blocks must equal the model's block decomposition "
+                "bit for bit in every subchannel (values are a keyed hash of index/subchannel/component/call over the full "
+                "bit range). Sampled, not exhaustive.",
+        "note": _RFNOTE + " The C-API replay (cnode) is part of C05's check, not of this one.",
+    },
+    "C04": {
+        "engine": "rfsim", "level": "exploration", "design_ref": "DESIGN.md 5/C04",
+        "technique": TECH + "monitored layout invariant over every file of every simulated recording (exact integer oracle), starts and lengths snapped to file/subdirectory boundaries",
+        "text": "After every simulated recording each data file is opened raw: every index it describes must lie in the "
+                "window of its own name time (exact integers), in the right subdirectory, in exactly one file, and every "
+                "model sample must be in the file file_of(k) names.",
+        "note": _RFNOTE,
+    },
+    "C05": {
+        "engine": "rfsim", "level": "exploration", "design_ref": "DESIGN.md 5/C05",
+        "technique": TECH + "histories of valid and invalid calls; recorder parked at every API-call boundary so the simulator fingerprints the tree before/after each rejected call",
+        "text": "Invalid calls of all eight classes are interleaved with valid ones at seeded positions; each must raise, "
+                "leave names/sizes/hashes/mtimes/inodes of the channel directory and all writer getters unchanged, and the "
+                "following valid calls must return what a model that never saw the rejected call predicts.",
+        "note": _RFNOTE + " Python API only in this round (the C-API driver cnode is not built yet).",
+    },
+    "C06": {
+        "engine": "rfsim", "level": "exploration", "design_ref": "DESIGN.md 5/C06",
+        "technique": TECH + "every file of every simulated recording inspected raw; properties regenerated under shuffled readdir order",
+        "text": "Structural index invariants, the 15 duplicated attributes, uuid / init timestamp / increasing sequence "
+                "number per session, equality with drf_properties.h5, and regeneration of a deleted properties file from "
+                "whatever file the shuffled glob picks, with identical read-back.",
+        "note": _RFNOTE + " init_utc_timestamp is checked to within 1 s (the statement says 'carry', not 'exact').",
+    },
+    "C07": {
+        "engine": "rfsim", "level": "exploration", "design_ref": "DESIGN.md 5/C07",
+        "technique": TECH + "continuous-mode recordings over all 70 (type, byte order, complex style) cells round-robin; fill slots compared bitwise in file byte order",
+        "text": "Every existing file must expose exactly one block covering its whole window; never-written slots must "
+                "hold the documented fill (any NaN for floats, most negative for signed, 0 for unsigned, both components); "
+                "a file exists iff a slot was written; with compression/checksum the block structure must be gapped mode's.",
+        "note": _RFNOTE,
+    },
+    "C08": {
+        "engine": "rfsim", "level": "exploration", "design_ref": "DESIGN.md 5/C08",
+        "technique": TECH + "query histories on long-lived and fresh reader objects (cache state depends on history) against the model and the stated relations",
+        "text": "30 seeded queries per recording on edges of files, blocks and gaps: block lengths vs read, split/merge, "
+                "subchannel column, bounds, vector reads of length 1 / nsub / arbitrary (exact data or IOError, never "
+                "partial), per-sample properties.",
+        "note": _RFNOTE,
+    },
+    "C11": {
+        "engine": "rfsim", "level": "exploration", "design_ref": "DESIGN.md 5/C11",
+        "technique": TECH + "multi-session, multi-directory histories (restarts later / earlier / inside recorded periods, single-parameter mismatches, writes into finalized periods)",
+        "text": "2-4 writer sessions (separate processes) over 1-3 top-level directories; a mismatching session must be "
+                "refused with the directory fingerprint unchanged; a write into a period finalized earlier must be refused, "
+                "alter no finalized file, and leave the writer usable; one reader over all directories must return the union.",
+        "note": _RFNOTE + " Refused writes are generated so that they start in an existing period (nothing of them can be "
+                "written); compression/checksum are kept equal across sessions.",
+    },
+    "C19": {
+        "engine": "rfsim", "level": "exploration", "design_ref": "DESIGN.md 5/C19",
+        "technique": TECH + "writer getters compared with the session model after every call of every history, rejected and zero-length calls interleaved",
+        "text": "Return value, next available, written, gaps, their sum, last file/dir (before and after close) after "
+                "every call of seeded histories in all writer modes, including block writes that the extension splits.",
+        "note": _RFNOTE + " States after a refused entry into a finalized period are excluded, as the property says.",
+    },
     "C02": {
         "engine": "crashsim", "level": "fault_enumeration", "design_ref": "DESIGN.md 5/C02, 3.2-3.4",
         "technique": TECH + "lock-step recorder, every FS-op boundary as crash state (+torn writes, real SIGKILL cross-check), seeded workloads",
@@ -50,7 +123,7 @@ NOT_APPLICABLE = {
     "C03": "pure integer function of (index, n, d): no state, I/O, schedule, clock or fault for a simulator to vary; "
            "deciding it is input enumeration or proof, i.e. another technique (DESIGN.md section 6)",
 }
-for _p in ("C01", "C04", "C05", "C06", "C07", "C08", "C11", "C12", "C13", "C14", "C15", "C16", "C17", "C18", "C19", "C20"):
+for _p in ("C12", "C13", "C14", "C15", "C16", "C17", "C18", "C20"):
     NOT_APPLICABLE.setdefault(_p, _PENDING)
 
 NOTES = ("All checks: bin/check <id> [--tier quick|thorough] [--replay file]; exit 0 held / 1 VIOLATION / 2 harness "
